@@ -12,6 +12,7 @@ import (
 	"regexp"
 	"runtime"
 	"sort"
+	"strconv"
 	"strings"
 	"sync"
 	"sync/atomic"
@@ -86,10 +87,19 @@ func (c *Ctx) Thorough() bool { return c.Tier == "thorough" }
 
 // N picks a case count by tier.
 func (c *Ctx) N(quick, thorough int) int {
+	n := quick
 	if c.Thorough() {
-		return thorough
+		n = thorough
 	}
-	return quick
+	// VERIF_SCALE multiplies every random case count (deep sweeps); the
+	// fixed catalogues and enumerations are unaffected.
+	if s, err := strconv.ParseFloat(os.Getenv("VERIF_SCALE"), 64); err == nil && s > 0 {
+		n = int(float64(n) * s)
+		if n < 1 {
+			n = 1
+		}
+	}
+	return n
 }
 
 func (c *Ctx) loadKnown() {
@@ -361,6 +371,7 @@ func (c *Ctx) Finish() int {
 		"known_findings": knownLines,
 		"inconclusive":   c.inconcl,
 		"hooks_built":    c.Hooks,
+		"scale":          os.Getenv("VERIF_SCALE"),
 	}
 	if len(c.samples) == 0 {
 		cov["samples"] = []interface{}{}
